@@ -345,6 +345,11 @@ theorem chebY_recurrence (s : ChebState K) (A : CRS K) (hM : s.scale = true → 
   ⟨rfl, rfl, getD_chebY_succ_succ s A r0 k i hi, getD_chebZ s A v i hi, getD_chebAhat s A v i hi,
    getD_chebResid s A hM b x i hi, rfl⟩
 
+/-- the same bundle under the uniform name used for the other smoothers -/
+theorem cheb_affine_scratch_indep [LT K] [DecidableLT K] (prm : ChebParams K) (A : CRS K)
+    (hd : prm.scale = true → hasDiagb A = true) : Smoother.Good (chebyshev prm) (chebSetup prm A) A :=
+  cheb_affine_fixed prm _ A (cheb_setup prm A hd).2.1
+
 theorem cheb_fixed_point [LT K] [DecidableLT K] (prm : ChebParams K) (A : CRS K)
     (hd : prm.scale = true → hasDiagb A = true) (f x t : Vec K) (hx : x.size = A.nrows) (hf : f.size = A.nrows)
     (h : ∀ i, i < A.nrows → rowDot (A.row i) x = f.getD i 0) :
